@@ -14,6 +14,7 @@ import (
 	"math/rand"
 	"net"
 	"os"
+	"runtime"
 	"strings"
 	"time"
 
@@ -114,16 +115,16 @@ func main() {
 			fail(cycle, scenario, "cannot connect to the freshly started emulator: "+err.Error())
 			break
 		}
-		if line, _ := probe.roundtrip(time.Second, "DBSIZE"); line != ":0\r\n" {
+		if line, _ := probe.roundtrip(10*time.Second, "DBSIZE"); line != ":0\r\n" {
 			fail(cycle, scenario, fmt.Sprintf("a new emulator without a persist path does not start empty: DBSIZE = %q", line))
 			break
 		}
-		if line, _ := probe.roundtrip(time.Second, "GET", "k"); line != "$-1\r\n" {
+		if line, _ := probe.roundtrip(10*time.Second, "GET", "k"); line != "$-1\r\n" {
 			fail(cycle, scenario, fmt.Sprintf("a new emulator sees a key of its predecessor: GET k = %q", line))
 			break
 		}
-		probe.roundtrip(time.Second, "SET", "k", fmt.Sprintf("cycle%d", cycle))
-		probe.roundtrip(time.Second, "RPUSH", "q0", "x")
+		probe.roundtrip(10*time.Second, "SET", "k", fmt.Sprintf("cycle%d", cycle))
+		probe.roundtrip(10*time.Second, "RPUSH", "q0", "x")
 		// clients in different states
 		type actor struct {
 			name string
@@ -141,15 +142,15 @@ func main() {
 		}
 		n := 1 + r.Intn(3)
 		for i := 0; i < n; i++ {
-			add("idle", func(cl *client) { cl.roundtrip(time.Second, "PING") })
+			add("idle", func(cl *client) { cl.roundtrip(10*time.Second, "PING") })
 		}
 		add("mid-pipeline", func(cl *client) {
-			cl.roundtrip(time.Second, "SET", "a", "1")
+			cl.roundtrip(10*time.Second, "SET", "a", "1")
 			cl.c.Write([]byte("*3\r\n$3\r\nSET\r\n$1\r\nb\r\n$10\r\nabc")) // incomplete command left in the buffer
 		})
 		add("inside MULTI", func(cl *client) {
-			cl.roundtrip(time.Second, "MULTI")
-			cl.roundtrip(time.Second, "SET", "m", "1")
+			cl.roundtrip(10*time.Second, "MULTI")
+			cl.roundtrip(10*time.Second, "SET", "m", "1")
 		})
 		for i := 0; i < 1+r.Intn(2); i++ {
 			add("blocked with timeout 0", func(cl *client) {
@@ -162,7 +163,7 @@ func main() {
 			// a client that asked for more than the socket buffers hold and does not read: the emulator
 			// is in the middle of writing the reply when it is closed
 			add("reply half written", func(cl *client) {
-				cl.roundtrip(2*time.Second, "SETRANGE", "big", "33554431", "x")
+				cl.roundtrip(20*time.Second, "SETRANGE", "big", "33554431", "x")
 				cl.c.Write(cmd("GET", "big"))
 			})
 		}
@@ -173,15 +174,35 @@ func main() {
 		go func() { emu.Close(); close(done) }()
 		select {
 		case <-done:
-		case <-time.After(5 * time.Second):
-			fail(cycle, scenario, "Close() did not return within 5 s")
+		case <-time.After(1500 * time.Millisecond):
+			// what is Close waiting for?
+			buf := make([]byte, 1<<20)
+			buf = buf[:runtime.Stack(buf, true)]
+			var mine []string
+			for _, g := range strings.Split(string(buf), "\n\n") {
+				if strings.Contains(g, "go-redisemu.") {
+					lines := strings.Split(g, "\n")
+					if len(lines) > 12 {
+						lines = lines[:12]
+					}
+					mine = append(mine, strings.Join(lines, "\n"))
+				}
+			}
+			select {
+			case <-done:
+			case <-time.After(4 * time.Second):
+				fail(cycle, append(scenario, mine...), "Close() did not return within 5.5 s")
+			}
+			if failures == 0 {
+				note("goroutines of the emulator 1.5 s into Close: " + strings.Join(mine, " || "))
+			}
 		}
 		if failures > 0 {
 			break
 		}
 		took := time.Since(t0)
 		stats["close_ms_total"] += int(took.Milliseconds())
-		if took > 2*time.Second {
+		if took > 5*time.Second {
 			fail(cycle, scenario, fmt.Sprintf("Close() took %v", took))
 			break
 		}
